@@ -1015,4 +1015,137 @@ Proof.
   rewrite popcount_slots by assumption. f_equal. symmetry. apply (Forall2_len _ _ _ HF).
 Qed.
 
+(* ---------------------------------------------------------------- persistence, histories *)
+
+(* Old versions are unaffected: the functions are pure, so after computing put / remove results the
+   old dict still answers every get as before, and each result answers as the updated map. *)
+Theorem persistence d k v k2 d1 d2 : Inv d -> dput d k v = Some d1 -> dremove d k2 = Some d2 ->
+  forall k', dget d k' = Some (abs d k') /\ dget d1 k' = Some (upd (abs d) k v k') /\
+             dget d2 k' = Some (del (abs d) k2 k').
+Proof.
+  intros HI Hp Hr k'.
+  destruct (put_correct d k v HI) as (d1' & Hp' & HI1 & A1). rewrite Hp in Hp'. inversion Hp'. subst d1'.
+  destruct (remove_correct d k2 HI) as (d2' & Hr' & HI2 & A2). rewrite Hr in Hr'. inversion Hr'. subst d2'.
+  split; [now apply get_correct|]. split; [rewrite get_correct, A1 by assumption|rewrite get_correct, A2 by assumption]; reflexivity.
+Qed.
+
+(* any sequence of insertions / replacements / removals, against the reference map *)
+Inductive op := OPut (k : key) (v : val) | ORemove (k : key).
+
+Fixpoint run (ops : list op) (d : dict) : option dict :=
+  match ops with
+  | [] => Some d
+  | OPut k v :: t => match dput d k v with Some d' => run t d' | None => None end
+  | ORemove k :: t => match dremove d k with Some d' => run t d' | None => None end
+  end.
+
+Fixpoint ref_run (ops : list op) (m : key -> option val) : key -> option val :=
+  match ops with
+  | [] => m
+  | OPut k v :: t => ref_run t (upd m k v)
+  | ORemove k :: t => ref_run t (del m k)
+  end.
+
+Lemma ref_run_ext ops : forall m1 m2, (forall k, m1 k = m2 k) -> forall k, ref_run ops m1 k = ref_run ops m2 k.
+Proof.
+  induction ops as [|[k v|k] t IH]; intros m1 m2 Hm k0; cbn [ref_run]; [apply Hm| |];
+    apply IH; intros k'; unfold upd, del; now rewrite Hm.
+Qed.
+
+Lemma run_ok ops : forall d, Inv d ->
+  exists d', run ops d = Some d' /\ Inv d' /\ forall k, abs d' k = ref_run ops (abs d) k.
+Proof.
+  induction ops as [|[k v|k] t IH]; intros d HI; cbn [run ref_run].
+  - exists d. split; [reflexivity|]. split; [exact HI|reflexivity].
+  - destruct (put_correct d k v HI) as (d1 & Hp & HI1 & A1). rewrite Hp.
+    destruct (IH d1 HI1) as (d' & Hrun & HI' & A'). exists d'. split; [exact Hrun|]. split; [exact HI'|].
+    intros k0. rewrite A'. apply ref_run_ext. exact A1.
+  - destruct (remove_correct d k HI) as (d1 & Hp & HI1 & A1). rewrite Hp.
+    destruct (IH d1 HI1) as (d' & Hrun & HI' & A'). exists d'. split; [exact Hrun|]. split; [exact HI'|].
+    intros k0. rewrite A'. apply ref_run_ext. exact A1.
+Qed.
+
+Theorem history_correct ops :
+  exists d, run ops (d_new key val) = Some d /\ Inv d /\
+    (forall k, dget d k = Some (ref_run ops (fun _ => None) k)) /\
+    (exists es, dentries d = Some es /\ NoDup (map fst es) /\
+                (forall k v, In (k, v) es <-> ref_run ops (fun _ => None) k = Some v) /\
+                dcount d = Some (Z.of_nat (length es))).
+Proof.
+  destruct (run_ok ops Empty Inv_empty) as (d & Hrun & HI & A). exists d. split; [exact Hrun|]. split; [exact HI|].
+  assert (A' : forall k, abs d k = ref_run ops (fun _ => None) k).
+  { intros k. rewrite A. apply ref_run_ext. reflexivity. }
+  split; [intros k; rewrite get_correct by assumption; now rewrite A'|].
+  destruct (entries_correct d HI) as (es & He & Hp & Hnd & Hin). exists es. split; [exact He|]. split; [exact Hnd|].
+  split; [intros k v; rewrite <- A'; apply Hin|].
+  rewrite count_correct by assumption. now rewrite (Permutation_length Hp).
+Qed.
+
+Lemma bindings_are_the_map d : Inv d ->
+  NoDup (map fst (bindings d)) /\ forall k v, In (k, v) (bindings d) <-> abs d k = Some v.
+Proof.
+  intros HI. pose proof (Inv_nodup d HI) as Hnd. split; [exact Hnd|].
+  intros k v. unfold abs. symmetry. now apply assoc_in.
+Qed.
+
+Lemma node_shape n lvl bm cs : inv n lvl (Node bm cs) ->
+  0 <= bm < 2 ^ 32 /\ Z.of_nat (length cs) = popcount bm /\ cs <> [].
+Proof.
+  intros H. pose proof (inv_popcount _ _ _ _ H) as Hp. destruct n; [cbn [inv] in H; contradiction|].
+  apply inv_node in H. destruct H as [[Hbm _] Hc]. split; [exact Hbm|]. split; [exact Hp|].
+  intros ->. exact Hc.
+Qed.
+
+(* ---------------------------------------------------------------- remove of an absent key *)
+
+Lemma bdel_absent es k : ~ In k (map fst es) -> bdel es k = es.
+Proof.
+  induction es as [|[k' v'] t IH]; cbn [bdel map fst In]; [reflexivity|].
+  intros H. destruct (key_eqb k' k) eqn:E.
+  - apply key_eqb_spec in E. exfalso. apply H. now left.
+  - f_equal. apply IH. intros Hin. apply H. now right.
+Qed.
+
+Lemma collapse_canon bm cs : canon cs -> collapse_node key val bm cs = Node bm cs.
+Proof.
+  destruct cs as [|c [|c2 cs]]; cbn [canon collapse_node]; [tauto| |reflexivity].
+  destruct c; tauto.
+Qed.
+
+(* dict.qv: "A dict with `key` removed (unchanged if absent)" — structurally unchanged *)
+Lemma remove_absent n : forall lvl fuel d k, (n < fuel)%nat -> inv n lvl d ->
+  ~ In k (map fst (bindings d)) ->
+  remove_aux key val key_eqb fuel d k (hash k) (5 * Z.of_nat lvl) = Some d.
+Proof.
+  induction n as [|n IH]; intros lvl fuel d k Hfuel Hinv Habs; (destruct fuel as [|fuel]; [lia|]);
+    destruct d as [|lh lk lv|ch es|bm cs]; try (now apply inv_not_empty in Hinv).
+  1,4: (cbn [remove_aux]; replace (key_eqb lk k) with false; [reflexivity|];
+        symmetry; apply key_eqb_false; intros ->; apply Habs; now left).
+  1,3: (apply inv_coll in Hinv; destruct Hinv as (Hlen & _ & _); cbn [remove_aux];
+        rewrite bucket_remove_spec; cbn [rev app]; cbn [bindings] in Habs; rewrite (bdel_absent es k Habs);
+        destruct es as [|[k1 v1] [|e2 rest]]; cbn [length] in Hlen; try lia; reflexivity).
+  - cbn [inv] in Hinv. contradiction.
+  - apply inv_node in Hinv. destruct Hinv as [[Hbm HF] Hcanon].
+    cbn [remove_aux]. rewrite bit_of_frag, bit_test.
+    pose proof (frag_lt (hash k) lvl) as Hf. set (f := frag (hash k) lvl) in *.
+    pose proof (node_split n lvl bm cs f Hf HF) as Hsplit.
+    destruct (tb bm f) eqn:Etb; cbn [negb]; [|reflexivity].
+    rewrite slot_index_lo, shift_succ.
+    destruct Hsplit as (clo & c & chi & -> & Hlen & Hlo & [Hc Hck] & Hhi).
+    rewrite <- Hlen, child_at_app.
+    rewrite (IH (S lvl) fuel c k) by (try lia; try assumption; intros Hin; apply Habs;
+      rewrite bindings_node, flat_map_bindings_app, map_app; apply in_or_app; right;
+      cbn [flat_map]; rewrite map_app; apply in_or_app; now left).
+    rewrite update_at_app. cbn [rev app].
+    destruct c; [now apply inv_not_empty in Hc| | |]; now rewrite collapse_canon.
+Qed.
+
+Theorem remove_absent_unchanged d k : Inv d -> abs d k = None -> dremove d k = Some d.
+Proof.
+  intros HI Habs. pose proof (Inv_nodup d HI) as Hnd. destruct HI as [->|Hinv]; [reflexivity|].
+  apply (remove_absent 7 0 FUEL d k); [unfold FUEL; lia|exact Hinv|].
+  intros Hin. apply in_map_iff in Hin. destruct Hin as ([k' v] & Ek & Hin). cbn [fst] in Ek. subst k'.
+  apply (assoc_in _ _ _ Hnd) in Hin. unfold abs in Habs. congruence.
+Qed.
+
 End Proofs.
